@@ -8,11 +8,11 @@ import (
 	"encoding/json"
 	"fmt"
 	"hash/fnv"
+	"io"
 	"os"
 	"path/filepath"
 	"sort"
 	"strconv"
-	"io"
 	"sync"
 
 	"github.com/semihalev/zlog/v2"
@@ -24,7 +24,6 @@ func Quiet() {
 	logger.SetWriter(zlog.NewTerminalWriter(io.Discard))
 	zlog.SetDefault(logger)
 }
-
 
 type unit struct {
 	Evaluations int64            `json:"evaluations"`
